@@ -105,15 +105,29 @@ fn chunker_run_inner(stream: &[u8], block: usize, sched: &Sched, arena_state: Ar
     let mut held: Vec<(AnchoredSlice, Vec<u8>)> = Vec::new();
     let mut prev_data_last: Option<u8> = None; // last byte of the previous chunk if it was Data
     let mut chunks = 0usize;
+    let mut eofs_before_the_end = 0usize;
     let cap = 4 * stream.len() + 16;
     loop {
         if chunks > cap {
             return Err("[content] pump does not reach Eof".into());
         }
+        let transient_before = reader.transient_eofs;
         let chunk = chunker.pump(iov.arena(), &mut reader, block).map_err(|e| format!("pump failed: {}", e))?;
         chunks += 1;
+        let cut_by_transient_eof = reader.transient_eofs > transient_before;
         match chunk {
-            Chunk::Eof => break,
+            Chunk::Eof => {
+                // The reader may have said "end of file" (Ok(0)) while more data was still to come (a
+                // file being appended to): each such answer justifies one Eof; the caller pumps
+                // again and the tiling goes on where it stopped.  (A stuff sequence cut by such an
+                // Eof is necessarily delivered as two Data chunks.)
+                if reader.delivered() < stream.len() && eofs_before_the_end < reader.transient_eofs {
+                    eofs_before_the_end += 1;
+                    prev_data_last = None;
+                    continue;
+                }
+                break;
+            }
             Chunk::Sentinel(end) => {
                 rebuilt.extend_from_slice(&refcodec::STUFF);
                 if end != rebuilt.len() as u64 {
@@ -139,7 +153,10 @@ fn chunker_run_inner(stream: &[u8], block: usize, sched: &Sched, arena_state: Ar
                 if end != rebuilt.len() as u64 {
                     return Err(format!("[content] Data chunk reports end offset {} but the chunks so far cover {} bytes", end, rebuilt.len()));
                 }
-                prev_data_last = bytes.last().copied();
+                // (a held-back FE flushed because the reader reported an end of file that turned out
+                // to be transient is necessarily a chunk of its own: the statement's read schedules
+                // do not include such readers, so the straddling clause is not applied across it)
+                prev_data_last = if cut_by_transient_eof { None } else { bytes.last().copied() };
                 let copy = bytes.to_vec();
                 if arena_state == ArenaState::FreshDropEach {
                     // a client that is done with each chunk before asking for the next one: nothing
